@@ -8,6 +8,8 @@ R19.2  mode -> required attribute table (finite domain over the mode
 R19.3  schema / defaults key sets: information only (thorough tier)
 R19.4  codec pairing: serializer primitives, PythonTask encoders vs decoder
 R19.5  slot converters carry every key of Slot._schema
+R19.6  derived defaults of _verify come after the alias blocks they depend on
+R19.4b payload values are encoded at call time (inside the encoder)
 """
 
 import ast
@@ -1427,7 +1429,10 @@ def run(prog, rep, tier):
         'agree on keys, per-key and outer codecs, and no None default reaches '
         'a consumer which unpacks it; both slot converters carry every key of '
         'Slot._schema from the same key of the input, every RO gets index '
-        'and occupation.')
+        'and occupation; statements of _verify which derive an attribute '
+        'from a replacement attribute run after the alias blocks writing it; '
+        'payload values of the PythonTask encoders are encoded where the '
+        'payload is built, not in an enclosing scope.')
     rep.undecided = ('equality of values after a round trip through '
         'as_dict()/constructor (radical.utils TypedDict is trusted); '
         'pickling of arbitrary callables; numeric conversions (float()) of '
